@@ -283,23 +283,6 @@ def check_buckets_iter(ctx, prog):
     ags = n.agg_sites(r"kbucket::ClosestBucketsIter$")
     f = {k: render(v) for k, v in n.site_expr(ags[0])[4]} if len(ags) == 1 else {}
     ctx.ob(R_, "new: keeps the distance it was given", f.get(F.distance) == "#1", lk.where(n), str(f)[:200])
-    # --- next_in / next_out: first hit over a range, in either adaptor or loop form
-    BIT = "libp2p_kad::kbucket::key::U256::bit(self.%s.0, <e>)" % F.distance
-    SOME = "std::option::Option::Some{0: libp2p_kad::kbucket::BucketIndex::BucketIndex{0: <e>}}"
-    NONE = "std::option::Option::None{}"
-    for fn, rng, hit, desc in (("next_in", ["std::iter::Iterator::rev(std::ops::Range::Range{start: 0, end: #2.0})"], "true", "strictly below the current index, descending"),
-                               ("next_out", ["std::ops::Range::Range{start: AddWithOverflow(#2.0, 1).0, end: const:libp2p_kad::kbucket::NUM_BUCKETS}",
-                                             "std::ops::Range::Range{start: Add(#2.0, 1), end: const:libp2p_kad::kbucket::NUM_BUCKETS}"], "false", "strictly above the current index up to NUM_BUCKETS, ascending")):
-        fb = ctx.body(K, r"^libp2p_kad::kbucket::ClosestBucketsIter::%s$" % fn)
-        sc = lk.first_hit(prog, fb)
-        ctx.ob(R_, "floor:%s is a first-hit scan (find_map or loop)" % fn, sc is not None, lk.where(fb), nontrivial=False, msg=str(sc)[:300])
-        if sc is None:
-            continue
-        ctx.ob(R_, "%s searches %s" % (fn, desc), sc["range"] in rng, lk.where(fb), "%s over %s" % (sc["form"], sc["range"][:200]))
-        miss = "false" if hit == "true" else "true"
-        ok = sc["pred"] == BIT and sc["vals"].get(hit) == [SOME] and sc["vals"].get(miss) == [NONE] and sc["exhausted"] == [NONE]
-        ctx.ob(R_, "%s yields exactly the %s distance bits" % (fn, "set" if hit == "true" else "unset"), ok, lk.where(fb),
-               "test %s; %s -> %s; %s -> %s; exhausted -> %s" % (sc["pred"], hit, sc["vals"].get(hit), miss, sc["vals"].get(miss), sc["exhausted"]))
     # --- next()
     b = ctx.body(K, CB)
     W = lk.where(b)
@@ -331,11 +314,45 @@ def check_buckets_iter(ctx, prog):
         return rows
 
     cur = {"Start": STATE + "@Start.0", "ZoomIn": STATE + "@ZoomIn.0", "ZoomOut": STATE + "@ZoomOut.0"}
+    # the two search helpers are identified by role, not by name: the inherent method of ClosestBucketsIter that `next` calls with
+    # (self, current index) in the ZoomIn / ZoomOut arm
+    helpers, hname = {}, {}
+    for role_, arm_ in (("next_in", "ZoomIn"), ("next_out", "ZoomOut")):
+        reach_ = b.reachable(arms[arm_])
+        names_ = set()
+        for s_ in b.call_sites(r"^libp2p_kad::kbucket::ClosestBucketsIter::\w+$"):
+            e_ = b.site_expr(s_)
+            if s_.bb in reach_ and len(e_[2]) == 2 and render(e_[2][0]) == "self" and render(e_[2][1]) == cur[arm_]:
+                names_.add(strip_generics(e_[1]))
+        if len(names_) == 1:
+            hname[role_] = names_.pop()
+            helpers[role_] = prog.by_npath(K).get(hname[role_])
+    # --- next_in / next_out: first hit over a range, in either adaptor or loop form
+    BIT = "libp2p_kad::kbucket::key::U256::bit(self.%s.0, <e>)" % F.distance
+    SOME = "std::option::Option::Some{0: libp2p_kad::kbucket::BucketIndex::BucketIndex{0: <e>}}"
+    NONE = "std::option::Option::None{}"
+    for fn, rng, hit, desc in (("next_in", ["std::iter::Iterator::rev(std::ops::Range::Range{start: 0, end: #2.0})"], "true", "strictly below the current index, descending"),
+                               ("next_out", ["std::ops::Range::Range{start: AddWithOverflow(#2.0, 1).0, end: const:libp2p_kad::kbucket::NUM_BUCKETS}",
+                                             "std::ops::Range::Range{start: Add(#2.0, 1), end: const:libp2p_kad::kbucket::NUM_BUCKETS}"], "false", "strictly above the current index up to NUM_BUCKETS, ascending")):
+        fb = helpers.get(fn)
+        ctx.ob(R_, "floor:%s helper (the private method called with the current index in the %s arm)" % (fn, "ZoomIn" if fn == "next_in" else "ZoomOut"), fb is not None, W, nontrivial=False, msg=str(fb and fb.npath))
+        if fb is None:
+            continue
+        ctx.use(fb)
+        sc = lk.first_hit(prog, fb)
+        ctx.ob(R_, "floor:%s is a first-hit scan (find_map or loop)" % fn, sc is not None, lk.where(fb), nontrivial=False, msg=str(sc)[:300])
+        if sc is None:
+            continue
+        ctx.ob(R_, "%s searches %s" % (fn, desc), sc["range"] in rng, lk.where(fb), "%s over %s" % (sc["form"], sc["range"][:200]))
+        miss = "false" if hit == "true" else "true"
+        ok = sc["pred"] == BIT and sc["vals"].get(hit) == [SOME] and sc["vals"].get(miss) == [NONE] and sc["exhausted"] == [NONE]
+        ctx.ob(R_, "%s yields exactly the %s distance bits" % (fn, "set" if hit == "true" else "unset"), ok, lk.where(fb),
+               "test %s; %s -> %s; %s -> %s; exhausted -> %s" % (sc["pred"], hit, sc["vals"].get(hit), miss, sc["vals"].get(miss), sc["exhausted"]))
     rows = arm_rows("Start")
     ok = len(rows) == 1 and rows[0][1] == "std::option::Option::Some{0: %s}" % cur["Start"] and rows[0][2] == [S + "ZoomIn{0: %s}" % cur["Start"]] and rows[0][3] == (1, 1)
     ctx.ob(R_, "Start(i): yields i and moves to ZoomIn(i)", ok, W, str([(r[1], r[2], r[3]) for r in rows])[:300])
     rows = arm_rows("ZoomIn")
-    NI = "libp2p_kad::kbucket::ClosestBucketsIter::next_in(self, %s)" % cur["ZoomIn"]
+    NI = "%s(self, %s)" % (hname.get("next_in", "?"), cur["ZoomIn"])
     in_some = lib.switch_edges_on(b, "^discr\\(" + re.escape(NI) + "\\)$", {"Some"})
     in_none = lib.switch_edges_on(b, "^discr\\(" + re.escape(NI) + "\\)$", {"None"})
     CURV = "^" + re.escape(cur["ZoomIn"] + ".0") + "$"
@@ -375,7 +392,7 @@ def check_buckets_iter(ctx, prog):
             ctx.ob(R_, "ZoomIn: every result is next_in, the turning point, or a continuation", False, s.loc(), r[:200])
     ctx.ob(R_, "floor:ZoomIn results", {"in", "zero"} <= kinds, W, nontrivial=False, msg=str(sorted(kinds)))
     rows = arm_rows("ZoomOut")
-    NO = "libp2p_kad::kbucket::ClosestBucketsIter::next_out(self, %s)" % cur["ZoomOut"]
+    NO = "%s(self, %s)" % (hname.get("next_out", "?"), cur["ZoomOut"])
     out_some = lib.switch_edges_on(b, "^discr\\(" + re.escape(NO) + "\\)$", {"Some"})
     out_none = lib.switch_edges_on(b, "^discr\\(" + re.escape(NO) + "\\)$", {"None"})
     kinds = set()
